@@ -27,7 +27,10 @@ CONSTANTS NK,         \* number of key classes
           Canon,      \* 0: every descriptor; 1: one per renaming of instance ids and zones; 2: moreover
                       \*    owners numbered by their smallest token (one per renaming of instances)
           WithRemove, \* TRUE: RemoveInstance steps are explored as well
-          EmitOn      \* TRUE: print the expected results of every state (one JSON line per descriptor)
+          Excl,       \* zones excluded by the ring's configuration (ring.Config.ExcludedZones)
+          EmitOn,     \* TRUE: print the expected results of every state (one JSON line per descriptor)
+          EmitSets,   \* TRUE: also print the acknowledging / answering subsets that make the executors succeed
+          XMax        \* > 0: also the ignore-unhealthy strategy with per-call replication factors 1..XMax
 
 Key    == 0..(NK-1)
 TokPos == Key \ Gaps
@@ -39,8 +42,8 @@ ZASeq  == <<FALSE, TRUE>>
 ZAIx   == 1..2
 RFSet  == 1..RFMax
 
-VARIABLES desc,   \* the ring descriptor
-          out     \* expected results on desc
+VARIABLES desc,   \* the ring descriptor (what the KV store holds)
+          out     \* expected results on the ring a client configured with Excl builds from desc
 
 vars == <<desc, out>>
 
@@ -76,6 +79,10 @@ Compute(d) ==
 
 Empty == [i \in {} |-> 0]
 
+(* The descriptor the ring works on: desc without the excluded zones. *)
+Effective(d) == IF Excl = {} THEN d ELSE ExcludeZones(d, Excl)
+Eff == Effective(desc)
+
 Init == /\ desc = Empty
         /\ out = Compute(Empty)
 
@@ -98,7 +105,7 @@ AddInstance(x, z, s, h, T) ==
     /\ Canon >= 2 => (T # {} => \A i \in DOMAIN desc : desc[i].toks # {} /\ SetMin(desc[i].toks) < SetMin(T))
     /\ desc' = [i \in DOMAIN desc \cup {x} |->
                    IF i = x THEN [zone |-> z, state |-> s, hb |-> h, toks |-> T] ELSE desc[i]]
-    /\ out' = Compute(desc')
+    /\ out' = Compute(Effective(desc'))
 
 (* Instance x unregisters (with Canon >= 1: the one registered last). *)
 RemoveInstance(x) ==
@@ -106,7 +113,7 @@ RemoveInstance(x) ==
     /\ x \in DOMAIN desc
     /\ Canon >= 1 => x = Cardinality(DOMAIN desc)
     /\ desc' = [i \in DOMAIN desc \ {x} |-> desc[i]]
-    /\ out' = Compute(desc')
+    /\ out' = Compute(Effective(desc'))
 
 Next == \/ \E x \in Inst, z \in 0..Z, s \in StateSet, h \in HbSet, T \in SUBSET TokPos : AddInstance(x, z, s, h, T)
         \/ \E x \in Inst : RemoveInstance(x)
@@ -128,15 +135,15 @@ L(k, o, z, rf) == out.res[out.ord[k]][o][z][rf]
 
 (* C01.  The statements about a walked set hold for every walk order that  *)
 (* occurs; the statements about where the walk starts for every key class. *)
-SizeOK        == \A w \in Walks, o \in OpIx, z \in ZAIx, rf \in RFSet : SizeOKOn(desc, OpAt(o), rf, ZASeq[z], out.res[w][o][z][rf])
-ZoneOK        == \A w \in Walks, o \in OpIx, z \in ZAIx, rf \in RFSet : ZoneOKOn(desc, OpAt(o), ZASeq[z], out.res[w][o][z][rf])
-SlackExact    == \A w \in Walks, o \in OpIx, z \in ZAIx, rf \in RFSet : SlackExactOn(desc, OpAt(o), rf, out.res[w][o][z][rf])
+SizeOK        == \A w \in Walks, o \in OpIx, z \in ZAIx, rf \in RFSet : SizeOKOn(Eff, OpAt(o), rf, ZASeq[z], out.res[w][o][z][rf])
+ZoneOK        == \A w \in Walks, o \in OpIx, z \in ZAIx, rf \in RFSet : ZoneOKOn(Eff, OpAt(o), ZASeq[z], out.res[w][o][z][rf])
+SlackExact    == \A w \in Walks, o \in OpIx, z \in ZAIx, rf \in RFSet : SlackExactOn(Eff, OpAt(o), rf, out.res[w][o][z][rf])
 WalkDefsAgree == \A w \in Walks, o \in OpIx, z \in ZAIx, rf \in RFSet :
-                    out.res[w][o][z][rf].walked = ReplicaWalkScan(desc, OpAt(o), rf, ZASeq[z], w)
+                    out.res[w][o][z][rf].walked = ReplicaWalkScan(Eff, OpAt(o), rf, ZASeq[z], w)
 ClockwiseFirst == \A k \in Key :
-                    LET reach == Reach(NK, desc, k)
-                    IN /\ WalkStartOK(NK, desc, k, out.ord[k])
-                       /\ \A o \in OpIx, z \in ZAIx, rf \in RFSet : NoJumpOn(desc, reach, OpAt(o), ZASeq[z], L(k, o, z, rf))
+                    LET reach == Reach(NK, Eff, k)
+                    IN /\ WalkStartOK(NK, Eff, k, out.ord[k])
+                       /\ \A o \in OpIx, z \in ZAIx, rf \in RFSet : NoJumpOn(Eff, reach, OpAt(o), ZASeq[z], L(k, o, z, rf))
 
 (* C01, the consequence: a step that registers or removes one instance     *)
 (* changes the result only of lookups whose walked set contained it before *)
@@ -152,18 +159,40 @@ MinimalDisruption == [][Disruption]_vars
 
 (* C02: with zone-awareness the property presupposes that every instance   *)
 (* carries a zone.  (o = 1 is Write, o = 3 is Read.)                       *)
-AllZoned == \A i \in DOMAIN desc : desc[i].zone # 0
+AllZoned == \A i \in DOMAIN Eff : Eff[i].zone # 0
 QuorumIntersection ==
     \A z \in ZAIx, rf \in RFSet :
        (ZASeq[z] => AllZoned) =>
           LET r == out.rset[3][z][rf]
-          IN r.ok => LET RB == ReadAnswerSets(desc, r)
+          IN r.ok => LET RB == ReadAnswerSets(Eff, r)
                      IN \A w \in Walks :
                            LET wr == out.res[w][1][z][rf]
                            IN wr.ok => \A A \in WriteAckSets(wr), B \in RB : A \cap B # {}
 
+(* The ignore-unhealthy strategy with per-call replication factors        *)
+(* (expanded replication), only in universes with XMax > 0.                *)
+LX(k, o, z, rf, c) == LookupIgnoreUnhealthy(NK, Eff, k, OpAt(o), rf, c, ZASeq[z])
+ExpandedOK ==
+    XMax > 0 => \A k \in Key, o \in OpIx, z \in ZAIx, rf \in RFSet, c \in 1..XMax :
+       LET r  == LX(k, o, z, rf, c)
+           e  == Max2(rf, c)                    \* the effective factor
+           t  == Max2(1, e \div rf)
+           C  == {i \in r.walked : ~Extends(Eff, OpAt(o), i)}
+       IN /\ Cardinality(C) <= e
+          /\ ZASeq[z] => \A zz \in 1..Z : Cardinality({i \in C : Eff[i].zone = zz}) <= t
+          /\ r.ids = {i \in r.walked : Healthy(Eff, OpAt(o), i)}
+          /\ r.ok <=> r.ids # {}
+          /\ r.ok => r.maxErrors = Cardinality(r.ids) - 1
+          \* nothing changes up to the configured factor: the same walked set as the default strategy
+          /\ c <= rf => r.walked = L(k, o, z, rf).walked
+          \* for one replica per zone MarksT is Marks
+          /\ MarksT(Eff, OpAt(o), ZASeq[z], out.ord[k], 1) = Marks(Eff, OpAt(o), ZASeq[z], out.ord[k])
+
 ----------------------------------------------------------------------------
 (* Case emitter: one JSON line per descriptor. *)
+AckMasks(k, z, rf)  == LET w == L(k, 1, z, rf) IN IF w.ok THEN {Mask(A) : A \in WriteAckSets(w)} ELSE {}
+AnswerMasks(z, rf)  == LET r == out.rset[3][z][rf] IN IF r.ok THEN {Mask(B) : B \in ReadAnswerSets(Eff, r)} ELSE {}
+
 Emit == EmitOn =>
     PrintT(ToJson(
       [ids   |-> [i \in 1..N |-> IF i \in DOMAIN desc THEN 1 ELSE 0],
@@ -171,7 +200,16 @@ Emit == EmitOn =>
        state |-> [i \in 1..N |-> IF i \in DOMAIN desc THEN desc[i].state ELSE ""],
        hb    |-> [i \in 1..N |-> IF i \in DOMAIN desc THEN desc[i].hb ELSE ""],
        toks  |-> [i \in 1..N |-> IF i \in DOMAIN desc THEN desc[i].toks ELSE {}],
+       excl  |-> Excl,
        look  |-> [k \in 1..NK |-> [o \in OpIx |-> [z \in ZAIx |-> [rf \in RFSet |-> L(k-1, o, z, rf).code]]]],
        rset  |-> [o \in OpIx |-> [z \in ZAIx |-> [rf \in RFSet |-> out.rset[o][z][rf].code]]],
+       \* a per-call replication factor above the configured one (the same for every key, operation, setting)
+       over  |-> LookupCall(NK, Eff, 0, OpAt(1), 1, 2, FALSE).err,
+       \* the subsets (id masks) of the Write replica set / Read replication set on which DoBatch / DoUntilQuorum succeed
+       acks  |-> IF EmitSets THEN [k \in 1..NK |-> [z \in ZAIx |-> [rf \in RFSet |-> AckMasks(k-1, z, rf)]]] ELSE <<>>,
+       answers |-> IF EmitSets THEN [z \in ZAIx |-> [rf \in RFSet |-> AnswerMasks(z, rf)]] ELSE <<>>,
+       \* ignore-unhealthy strategy: [key class][op][za][configured rf][per-call rf]
+       lookx |-> IF XMax > 0 THEN [k \in 1..NK |-> [o \in OpIx |-> [z \in ZAIx |-> [rf \in RFSet |-> [c \in 1..XMax |->
+                     CodeL(LX(k-1, o, z, rf, c))]]]]] ELSE <<>>,
        nt    |-> Cardinality({c \in Key \X OpIx \X ZAIx \X RFSet : ~L(c[1], c[2], c[3], c[4]).plain})]))
 =============================================================================
